@@ -80,6 +80,10 @@ def run_case(res, case):
                 if choice < 0.45:
                     size = r.choice([1, 2, 7, 8, 100, 1000])
                     msg.data_set = bytes(r.getrandbits(8) for _ in range(size))
+                    if r.random() < 0.2:
+                        # the application states "data set present" with another legal value
+                        msg.command_set.CommandDataSetType = r.choice([0x0000, 0x0102, 0xFFFF, 0x0100])
+                        res.count('sim.other-present-value')
                 elif choice < 0.7:
                     msg.data_set = None
                 elif choice < 0.8:
@@ -95,8 +99,13 @@ def run_case(res, case):
                     if lists and r.random() < 0.5:
                         kw = r.choice(sorted(lists))
                         extra = r.randrange(0, 0xFFFFFFFF)
-                        getattr(msg.command_set, kw).append(extra)
-                        values[kw] = list(values[kw]) + [extra]
+                        if r.random() < 0.5:
+                            getattr(msg.command_set, kw).append(extra)
+                            values[kw] = list(values[kw]) + [extra]
+                        else:
+                            # one item replaced in place: same length, other content
+                            getattr(msg.command_set, kw)[-1] = extra
+                            values[kw] = list(values[kw])[:-1] + [extra]
                     else:
                         optional = sorted(kw for kw in values if kw not in (
                             'CommandField', 'CommandDataSetType', 'MessageID', 'MessageIDBeingRespondedTo'))
